@@ -1,6 +1,7 @@
 '''C02 - reprocessing after a change is complete and minimal'''
 
 from .. import boot, simfarm, simprops
+from ..result import keep_going
 
 ID = 'C02'
 LEVEL = 'exploration'
@@ -395,7 +396,7 @@ def run_e2e(spec, res):
 
     rng = random.Random(spec['seed'])
     n = 0
-    while res.elapsed() < spec['budget'] * 0.6 or n < 1:
+    while keep_going(res, spec, 0.6) or n < 1:
         case = gen_e2e_case(rng)
         bad, sim = run_e2e_case(case, res, rng)
         n += 1
